@@ -286,6 +286,24 @@ fn transcode_events(spec: &ImgSpec, data: &[u8], tss: &[(String, String)], w: &m
     }
 }
 
+/// a hand-assembled pixel fragment sequence (frames of 1..3 fragments, exact offset table):
+/// frame retrieval in memory and after a write/read round trip
+fn assembled_event(c: &Value, w: &mut NdjsonWriter) {
+    let groups: Vec<Vec<Vec<u8>>> = c["frags"].as_array().unwrap().iter().map(bytes_list_of).collect();
+    let bot: Vec<u32> = c["bot"].as_array().unwrap().iter().map(|x| x.as_u64().unwrap() as u32).collect();
+    let frags: Vec<Vec<u8>> = groups.iter().flatten().cloned().collect();
+    let n = groups.len() as u32;
+    let o = encapsulated_object(&ImgSpec::simple(1, 1, 1, 8, n), bot.clone(), frags.clone(), ENCAPS_UNCOMPRESSED);
+    let reread = write_bytes(&o).and_then(|b| read_bytes(&b));
+    let fpd_reread = match &reread {
+        Ok(r) => fpd_json(r, n),
+        Err(e) => Value::Array((0..n).map(|_| json!({"res": "err", "msg": e})).collect()),
+    };
+    w.emit(&json!({"ev": "assembled", "groups": c["groups"], "res": "ok", "bot": ju32(&bot), "frags": jbb(&frags),
+        "nframes_attr": attr_int(&o, tags::NUMBER_OF_FRAMES), "total_attr": -1,
+        "wire": wire_json(&o), "fpd": fpd_json(&o, n), "fpd_reread": fpd_reread}));
+}
+
 fn c18(cases_path: &str, out: &str, random: usize, big: bool) {
     let cases = read_ndjson(cases_path);
     let mut w = NdjsonWriter::create(out);
@@ -299,6 +317,10 @@ fn c18(cases_path: &str, out: &str, random: usize, big: bool) {
             Some("helper") => {
                 nh += 1;
                 helper_events(&bytes_list_of(&c["frames"]), c["frag_size"].as_u64().unwrap() as u32, &mut w, Some(c), &mut drift);
+            }
+            Some("assembled") => {
+                nh += 1;
+                assembled_event(c, &mut w);
             }
             Some("image") => {
                 ni += 1;
